@@ -49,3 +49,10 @@ func Harness_C17_writeCas() { stepWriteCas(pC17) }
 func Harness_C17_remove()   { stepRemove(pC17, true) }
 func Harness_C17_touch()    { stepTouch(pC17) }
 func Harness_C17_incr()     { stepIncr(pC17) }
+
+// C04: the stamp clause on the xattr entry points and Update
+func Harness_C04_stampUpdate()          { stepUpdate(pC04) }
+func Harness_C04_stampSetXattrs()       { stepXattr(pC04, xSetXattrs) }
+func Harness_C04_stampUpdateXattrs()    { stepXattr(pC04, xUpdateXattrs) }
+func Harness_C04_stampDeleteWithXattrs() { stepXattr(pC04, xDeleteWithXattrs) }
+func Harness_C04_stampDeleteSubDocPaths() { stepXattr(pC04, xDeleteSubDocPaths) }
